@@ -21,6 +21,7 @@ META = {
 }
 
 N_STEPS = 12
+MAX_REPORTS_PER_KIND = 4      # distinct (class, parameter) signatures reported per kind of failure; the rest is counted
 
 # registry pairs that are value-resolved by __next__ but cannot be given a pattern for a documented reason
 NOT_ACCEPTING = {
@@ -90,23 +91,28 @@ def num(r, lo=-6, hi=9):
     return flt(r, lo, hi) if r.random() < 0.3 else r.randint(lo, hi)
 
 
+def numn(r, lo=-6, hi=9, p=0.2):
+    """a number or, with probability p, a rest (None): a class must read ALL its parameters also when one is a rest"""
+    return None if r.random() < p else num(r, lo, hi)
+
+
 # class -> lambda r: [(param, value)] in positional order; *args parameters are spliced
 def _binop(lo=-6, hi=9, nz=False, small=False):
     def f(r):
         if small:
             return [("a", r.randint(0, 5)), ("b", r.randint(0, 4))]
-        b = num(r, lo, hi)
+        b = numn(r, lo, hi)
         while nz and b == 0:
             b = num(r, lo, hi)
-        return [("a", num(r, lo, hi)), ("b", b)]
+        return [("a", numn(r, lo, hi)), ("b", b)]
     return f
 
 
 TEMPLATES = {
     "PFunc": lambda r: [("function", FN(r.choice(["seven", "three"])))],
-    "PArrayIndex": lambda r: [("list", ints(r, 4)), ("index", r.randint(0, 3))],
+    "PArrayIndex": lambda r: [("list", ints(r, 4)), ("index", r.choice([None, 0, 1, 2, 3, 1, 2]))],
     "PDictKey": lambda r: [("dict", {"a": r.randint(0, 9), "b": r.randint(10, 19)}), ("key", r.choice(["a", "b"]))],
-    "PAbs": lambda r: [("input", num(r))], "PInt": lambda r: [("input", num(r))],
+    "PAbs": lambda r: [("input", numn(r))], "PInt": lambda r: [("input", numn(r))],
     "PAnd": lambda r: [("a", r.choice([0, 1, 2, 0, 5, 0.0])), ("b", r.choice([0, 1, 2, 0, 5, 0.0]))],
     "PSequence": lambda r: [("sequence", ints(r, r.randint(2, 3))), ("repeats", r.randint(1, 4))],
     "PSeries": lambda r: [("start", num(r)), ("step", num(r, -3, 4)), ("length", r.randint(3, 20))],
@@ -123,7 +129,7 @@ TEMPLATES = {
     "PSequenceAction": lambda r: [("list", ints(r, 3)), ("fn", FN("rot")), ("repeats", r.randint(1, 4))],
     "PWhite": lambda r: [("min", r.choice([r.randint(0, 3), flt(r, 0, 3)])), ("max", r.randint(5, 40)), ("length", r.choice([0, 0, r.randint(3, 9)]))],
     "PBrown": lambda r: [("initial_value", r.randint(-2, 2)), ("step", r.choice([r.randint(1, 3), flt(r, 1, 3)])),
-                         ("min", r.randint(-9, -4)), ("max", r.randint(4, 9))],
+                         ("min", r.randint(-3, -1)), ("max", r.randint(1, 3))],
     "PCoin": lambda r: [("probability", r.randint(0, 8) / 8.0), ("regular", r.random() < 0.5)],
     "PRandomWalk": lambda r: [("values", ints(r, 5)), ("min", r.randint(0, 1)), ("max", r.randint(2, 3))],
     "PChoice": lambda r: [("values", ints(r, 4)), ("weights", r.choice([None, [r.randint(1, 4) / 4.0 for _ in range(4)]]))],
@@ -135,21 +141,21 @@ TEMPLATES = {
     "PSwitchOne": lambda r: [("pattern", series(r)), ("length", r.randint(2, 5))],
     "PRandomExponential": lambda r: [("min", r.choice([r.randint(1, 3), flt(r, 1, 3)])), ("max", r.randint(5, 40))],
     "PRandomImpulseSequence": lambda r: [("probability", r.randint(0, 8) / 8.0), ("length", r.randint(2, 6))],
-    "PChanged": lambda r: [("source", num(r))], "PDiff": lambda r: [("source", num(r))],
-    "PSkipIf": lambda r: [("pattern", num(r)), ("skip", r.choice([0, 1, True, False]))],
+    "PChanged": lambda r: [("source", numn(r))], "PDiff": lambda r: [("source", numn(r))],
+    "PSkipIf": lambda r: [("pattern", numn(r, p=0.3)), ("skip", r.choice([0, 1, True, False]))],
     "PNormalise": lambda r: [("input", num(r))],
     "PMap": lambda r: [("input", series(r)), ("operator", FN("addmul")), ("args", [r.randint(-3, 3), r.randint(1, 3)])],
     "PScaleLinLin": lambda r: [("input", series(r)), ("args", [0, r.randint(8, 16), r.randint(-4, 4), r.randint(8, 40)])],
     "PScaleLinExp": lambda r: [("input", E("PSeries", 1, 1)), ("args", [1, r.randint(8, 16), r.randint(1, 4), r.randint(8, 40)])],
     "PRound": lambda r: [("input", E("PSeries", flt(r, 0, 3) + 0.125, 0.375)), ("args", [r.randint(0, 2)])],
-    "PIndexOf": lambda r: [("list", r.sample(range(0, 9), 5)), ("item", r.randint(0, 9))],
+    "PIndexOf": lambda r: [("list", r.sample(range(0, 9), 5)), ("item", r.choice([None] + list(range(10))))],
     "PGlobals": lambda r: [("name", r.choice(["g1", "g2"]))],
-    "PDegree": lambda r: [("degree", r.randint(-3, 10)), ("scale", SC(r.choice(["major", "minor", "dorian", "chromatic"])))],
+    "PDegree": lambda r: [("degree", r.choice([None, None] + list(range(-3, 11)))), ("scale", SC(r.choice(["major", "minor", "dorian", "chromatic"])))],
     "PFilterByKey": lambda r: [("pattern", r.randint(40, 80)), ("key", K(r.randint(0, 11), r.choice(["major", "minor"])))],
     "PNearestNoteInKey": lambda r: [("pattern", r.randint(40, 80)), ("key", K(r.randint(0, 11), r.choice(["major", "minor"])))],
-    "PMidiNoteToFrequency": lambda r: [("input", r.randint(30, 90))],
+    "PMidiNoteToFrequency": lambda r: [("input", r.choice([None] + list(range(30, 90, 7))))],
     "PMidiSemitonesToFrequencyRatio": lambda r: [("input", r.randint(-12, 12))],
-    "PKeyTonic": lambda r: [("key", K(r.randint(0, 11), "major"))],
+    "PKeyTonic": lambda r: [("key", r.choice([None, K(r.randint(0, 11), "major"), K(r.randint(0, 11), "minor")]))],
     "PKeyScale": lambda r: [("key", K(r.randint(0, 11), r.choice(["major", "minor"])))],
     "PTri": lambda r: [("length", r.randint(3, 9)), ("min", flt(r, -2, 1)), ("max", flt(r, 2, 5))],
     "PSaw": lambda r: [("length", r.randint(3, 9)), ("min", flt(r, -2, 1)), ("max", flt(r, 2, 5))],
@@ -277,7 +283,7 @@ def ref_changed(diff):
         cur = use("source")
         while True:
             nxt = use("source")
-            yield (nxt - cur) if diff else (0 if nxt == cur else 1)
+            yield ((None if (nxt is None or cur is None) else nxt - cur) if diff else (0 if nxt == cur else 1))
             cur = nxt
     return g
 
@@ -285,23 +291,24 @@ def ref_changed(diff):
 def ref_arrayindex(a, use):
     while True:
         l, i = use("list"), use("index")
-        yield l[int(i)]
+        yield None if i is None else l[int(i)]
 
 
 def ref_indexof(a, use):
     while True:
         l, it = use("list"), use("item")
-        yield l.index(it) if it in l else None
+        yield l.index(it) if (it is not None and it in l) else None
 
 
 REFS = {
     "PSeries": ref_series, "PRange": ref_range, "PGeom": ref_geom, "PImpulse": ref_impulse, "PStutter": ref_stutter,
     "PSubsequence": ref_subsequence, "PSequence": ref_sequence, "PTri": ref_saw(True), "PSaw": ref_saw(False),
     "PChanged": ref_changed(False), "PDiff": ref_changed(True), "PArrayIndex": ref_arrayindex, "PIndexOf": ref_indexof,
-    "PAbs": ref_pointwise(lambda x: abs(x)), "PInt": ref_pointwise(lambda x: int(x)),
-    "PAdd": ref_pointwise(lambda x, y: x + y), "PSub": ref_pointwise(lambda x, y: x - y), "PMul": ref_pointwise(lambda x, y: x * y),
+    "PAbs": ref_pointwise(lambda x: None if x is None else abs(x)), "PInt": ref_pointwise(lambda x: None if x is None else int(x)),
+    "PAdd": ref_pointwise(_rest2(lambda x, y: x + y)), "PSub": ref_pointwise(_rest2(lambda x, y: x - y)),
+    "PMul": ref_pointwise(_rest2(lambda x, y: x * y)),
     "PSkipIf": ref_pointwise(lambda p, s: None if s else p),
-    "PLessThan": ref_pointwise(lambda x, y: x < y), "PEqual": ref_pointwise(lambda x, y: x == y),
+    "PLessThan": ref_pointwise(_rest2(lambda x, y: x < y)), "PEqual": ref_pointwise(_rest2(lambda x, y: x == y)),
 }
 
 
@@ -539,7 +546,7 @@ def check(run):
     except REG.RegistryError as e:
         raise CheckError("registry: %s" % e)
     judged = registry_checks(run, pairs, outside, view)
-    per_pair = 60 if thorough else 6
+    per_pair = 60 if thorough else 8
     reported = set()
 
     def report(sig, doc):
@@ -547,203 +554,224 @@ def check(run):
         if key in reported:
             return
         reported.add(key)
+        per_kind[sig["kind"]] = per_kind.get(sig["kind"], 0) + 1
+        if per_kind[sig["kind"]] > MAX_REPORTS_PER_KIND:
+            run.cov["violations_not_reported_beyond_cap"] = run.cov.get("violations_not_reported_beyond_cap", 0) + 1
+            return
         run.violation(sig, doc)
+    per_kind = {}
 
-    # ---------------------------------------------------------------------------------------------
-    # generate
-    # ---------------------------------------------------------------------------------------------
-    insts = []
-    for pair in sorted(judged):
-        cls, param = pair
-        info = judged[pair]
-        for t in range(per_pair):
-            args = TEMPLATES[cls](rng)
-            a = dict(args)
-            item = 0
-            if param == "args":
-                item = rng.randrange(len(a["args"]))
-                x = a["args"][item]
-            else:
-                x = a[param]
-            xs = [x]
-            for _ in range(60):
-                if len(xs) >= 3 + (t % 3):
-                    break
-                b = dict(TEMPLATES[cls](rng))
-                y = b["args"][item] if param == "args" else b[param]
-                if to_source(y) != to_source(xs[-1]):
-                    xs.append(y)
-            seed = rng.randint(1, 10 ** 6)
-            n = 1 if (cls == "PNoRepeats") else N_STEPS + (t % 5)
-            J = lambda e, **kw: Job(e, kw.pop("n", n), seed, **kw)
-            inst = {"pair": pair, "args": args, "x": x, "xs": xs, "item": item, "n": n, "seed": seed, "attr": info["attr"]}
-            inst["scalar"] = J(build(cls, args, param, x, item), tag="scalar")
-            inst["forms"] = [
-                ("PConstant(x)", J(build(cls, args, param, E("PConstant", x), item))),
-                ("PRef(PConstant(x))", J(build(cls, args, param, E("PRef", E("PConstant", x)), item))),
-                ("depth-2", J(build(cls, args, param, wrap_const(rng, x, 2), item))),
-                ("depth-3", J(build(cls, args, param, wrap_const(rng, x, 3), item))),
-            ]
-            nv = N_STEPS + (t % 5)
-            vp = E("Probe", E("PSequence", list(xs)))
-            inst["nv"] = nv
-            inst["varying"] = Job(build(cls, args, param, vp, item), nv, seed)
-            d = 2 + (t % 2)
-            inst["nested"] = Job(build(cls, args, param, wrap_pattern(rng, vp, d), item), nv, seed)
-            inst["nested_depth"] = d
-            inst["x1"] = Job(build(cls, args, param, xs[0], item), nv, seed)
-            # PRef retargeted at random steps to other constants
-            s1 = rng.randint(1, nv - 3)
-            s2 = rng.randint(s1 + 1, nv - 1)
-            ys = [xs[0], xs[1 % len(xs)], xs[2 % len(xs)]]
-            inst["retarget_plan"] = (s1, s2, ys)
-            inst["retarget"] = Job(build(cls, args, param, E("PRef", E("PConstant", ys[0])), item), nv, seed,
-                                   retarget=[[s1, to_json(E("PConstant", ys[1]))], [s2, to_json(E("PSequence", [ys[2]]))]])
-            insts.append(inst)
-    jobs = []
-    for inst in insts:
-        jobs += [inst["scalar"], inst["varying"], inst["nested"], inst["x1"], inst["retarget"]] + [j for _, j in inst["forms"]]
-    run_jobs(run, jobs)
-
-    # second round: the step-wise scalar reference needs the observed use schedule
-    def attr_value(inst, v):
-        """the plain value the attribute holds when the parameter is v"""
-        if inst["pair"][1] == "args":
-            vs = list(dict(inst["args"])["args"])
-            vs[inst["item"]] = v
-            return tuple(vs)
-        return v
-    round2 = []
-    for inst in insts:
-        xs, nv = inst["xs"], inst["nv"]
-        calls = [c[0] for c in inst["varying"].res["calls"]]
-        ctor = inst["varying"].res["ctor_calls"][0] if inst["varying"].res["ctor_calls"] else 0
-        inst["setref"] = None
-        if inst["varying"].res["status"] or len(inst["varying"].res["obs"]) < 2:
-            continue
-        before = [ctor] + calls[:-1]
-        sched = [b % len(xs) for b in before] + [0] * (nv - len(before))
-        first = xs[(ctor - 1) % len(xs)] if ctor else xs[0]
-        inst["setref"] = Job(build(inst["pair"][0], inst["args"], inst["pair"][1], first, inst["item"]), nv, inst["seed"],
-                             set_={"attr": inst["attr"], "values": [to_json(attr_value(inst, v)) for v in xs], "schedule": sched})
-        s1, s2, ys = inst["retarget_plan"]
-        sched_r = [0 if i < s1 else 1 if i < s2 else 2 for i in range(nv)]
-        inst["retarget_ref"] = Job(build(inst["pair"][0], inst["args"], inst["pair"][1], ys[0], inst["item"]), nv, inst["seed"],
-                                   set_={"attr": inst["attr"], "values": [to_json(attr_value(inst, v)) for v in ys], "schedule": sched_r})
-        round2 += [inst["setref"], inst["retarget_ref"]]
-    run_jobs(run, round2)
-
-    # ---------------------------------------------------------------------------------------------
-    # judge
-    # ---------------------------------------------------------------------------------------------
     discriminating = {pair: 0 for pair in judged}
-    for inst in insts:
-        cls, param = inst["pair"]
-        pname = "%s.%s" % (cls, param)
-        base = inst["scalar"]
-        run.dist("pair." + pname)
-        sched_kind = schedule_of(inst["pair"])
-        run.dist("schedule." + sched_kind)
-        # (1) scalar / PConstant / PRef(PConstant) / deeper nestings are indistinguishable
-        for fname, j in inst["forms"]:
-            run.count()
-            run.dist("form." + fname)
-            run.cov["oracle_evaluations"] += len(j.obs)
-            k = first_diff(base.obs, j.obs)
-            if len(base.obs) > 1 and not base.res["status"]:
-                run.nontrivial("const %s %s" % (fname, to_source(j.expr)))
-            if k is not None:
-                report({"kind": "const-equivalence", "class": cls, "param": param}, {
-                    "case": {"class": cls, "param": param, "form": fname, "expr": to_source(j.expr), "scalar_expr": to_source(base.expr),
-                             "seed": inst["seed"], "n": inst["n"]},
-                    "expected": "the outputs of %s: %s" % (to_source(base.expr), pretty_list(base.obs)),
-                    "observed": "%s (first difference at observation %d; observation 0 is the constructor)" % (pretty_list(j.obs), k),
-                    "python": j.python() + "\n# versus\n" + base.python()})
-        # (2) varying parameter: schedule + step-wise scalar reference
-        v = inst["varying"]
-        run.count()
-        run.dist("form.varying")
-        if v.res["status"] or len(v.res["obs"]) < 2:
-            # the scalar form must then fail in the same way at construction
-            if canon(v.obs[:1] + v.obs[-1:]) != canon(inst["x1"].obs[:1] + inst["x1"].obs[-1:]) and (v.res["status"] or len(v.res["obs"]) < 2) \
-                    and not (inst["x1"].res["status"] == v.res["status"] and len(inst["x1"].res["obs"]) == len(v.res["obs"])):
-                report({"kind": "varying-construction", "class": cls, "param": param}, {
-                    "case": {"class": cls, "param": param, "expr": to_source(v.expr), "seed": inst["seed"]},
-                    "expected": "constructed and stepped like %s: %s" % (to_source(inst["x1"].expr), pretty_list(inst["x1"].obs)),
-                    "observed": pretty_list(v.obs), "python": v.python()})
-            else:
-                run.discard("varying: not constructible either way")
-            continue
-        run.cov["oracle_evaluations"] += len(v.obs)
-        why = judge_schedule(inst["pair"], v, inst["xs"])
-        if why:
-            report({"kind": "use-schedule", "class": cls, "param": param}, {
-                "case": {"class": cls, "param": param, "expr": to_source(v.expr), "seed": inst["seed"], "n": inst["nv"], "schedule": sched_kind},
-                "expected": "a varying parameter is read exactly once per use (%s): never skipped, never read twice" % sched_kind,
-                "observed": "%s; cumulative next() calls on the parameter after each step: %s (constructor: %s); outputs %s" % (
-                    why, [c[0] for c in v.res["calls"]], v.res["ctor_calls"], pretty_list(v.obs)),
-                "python": v.python()})
-        sr = inst["setref"]
-        if sr is not None:
-            k = first_diff(sr.obs, v.obs)
-            if k is not None:
-                report({"kind": "stepwise-reference", "class": cls, "param": param}, {
-                    "case": {"class": cls, "param": param, "expr": to_source(v.expr), "seed": inst["seed"], "n": inst["nv"],
-                             "parameter_stream": [to_source(x) for x in inst["xs"]]},
-                    "expected": "the outputs of the same class with the parameter re-assigned by hand to the value its i-th use must see: %s" % pretty_list(sr.obs),
-                    "observed": "%s (first difference at observation %d)" % (pretty_list(v.obs), k),
-                    "python": v.python() + "\n# reference\n" + sr.python()})
-            if first_diff(inst["x1"].obs, v.obs) is not None:
-                discriminating[inst["pair"]] += 1
-                run.nontrivial("varying " + to_source(v.expr))
-        # (3) explicit plain-Python reference
-        if cls in REFS and param != "args":
-            try:
-                want, uses = run_ref(cls, inst["args"], param, inst["xs"], inst["nv"])
-                got = v.res["obs"][1:]
-                k = first_diff(want, got)
-                run.cov["oracle_evaluations"] += len(got)
-                run.dist("oracle.plain-python-reference")
+
+    def process(todo, count):
+        # ---------------------------------------------------------------------------------------------
+        # generate
+        # ---------------------------------------------------------------------------------------------
+        insts = []
+        for pair in sorted(todo):
+            cls, param = pair
+            info = judged[pair]
+            for t in range(count):
+                args = TEMPLATES[cls](rng)
+                a = dict(args)
+                item = 0
+                if param == "args":
+                    item = rng.randrange(len(a["args"]))
+                    x = a["args"][item]
+                else:
+                    x = a[param]
+                xs = [x]
+                for _ in range(60):
+                    if len(xs) >= 3 + (t % 3):
+                        break
+                    b = dict(TEMPLATES[cls](rng))
+                    y = b["args"][item] if param == "args" else b[param]
+                    if to_source(y) != to_source(xs[-1]):
+                        xs.append(y)
+                seed = rng.randint(1, 10 ** 6)
+                n = 1 if (cls == "PNoRepeats") else N_STEPS + (t % 5)
+                J = lambda e, **kw: Job(e, kw.pop("n", n), seed, **kw)
+                inst = {"pair": pair, "args": args, "x": x, "xs": xs, "item": item, "n": n, "seed": seed, "attr": info["attr"]}
+                inst["scalar"] = J(build(cls, args, param, x, item), tag="scalar")
+                inst["forms"] = [
+                    ("PConstant(x)", J(build(cls, args, param, E("PConstant", x), item))),
+                    ("PRef(PConstant(x))", J(build(cls, args, param, E("PRef", E("PConstant", x)), item))),
+                    ("depth-2", J(build(cls, args, param, wrap_const(rng, x, 2), item))),
+                    ("depth-3", J(build(cls, args, param, wrap_const(rng, x, 3), item))),
+                ]
+                nv = N_STEPS + (t % 5)
+                vp = E("Probe", E("PSequence", list(xs)))
+                inst["nv"] = nv
+                inst["varying"] = Job(build(cls, args, param, vp, item), nv, seed)
+                d = 2 + (t % 2)
+                inst["nested"] = Job(build(cls, args, param, wrap_pattern(rng, vp, d), item), nv, seed)
+                inst["nested_depth"] = d
+                inst["x1"] = Job(build(cls, args, param, xs[0], item), nv, seed)
+                # PRef retargeted at random steps to other constants
+                s1 = rng.randint(1, nv - 3)
+                s2 = rng.randint(s1 + 1, nv - 1)
+                ys = [xs[0], xs[1 % len(xs)], xs[2 % len(xs)]]
+                inst["retarget_plan"] = (s1, s2, ys)
+                inst["retarget"] = Job(build(cls, args, param, E("PRef", E("PConstant", ys[0])), item), nv, seed,
+                                       retarget=[[s1, to_json(E("PConstant", ys[1]))], [s2, to_json(E("PSequence", [ys[2]]))]])
+                insts.append(inst)
+        jobs = []
+        for inst in insts:
+            jobs += [inst["scalar"], inst["varying"], inst["nested"], inst["x1"], inst["retarget"]] + [j for _, j in inst["forms"]]
+        run_jobs(run, jobs)
+
+        # second round: the step-wise scalar reference needs the observed use schedule
+        def attr_value(inst, v):
+            """the plain value the attribute holds when the parameter is v"""
+            if inst["pair"][1] == "args":
+                vs = list(dict(inst["args"])["args"])
+                vs[inst["item"]] = v
+                return tuple(vs)
+            return v
+        round2 = []
+        for inst in insts:
+            xs, nv = inst["xs"], inst["nv"]
+            calls = [c[0] for c in inst["varying"].res["calls"]]
+            ctor = inst["varying"].res["ctor_calls"][0] if inst["varying"].res["ctor_calls"] else 0
+            inst["setref"] = None
+            if inst["varying"].res["status"] or len(inst["varying"].res["obs"]) < 2:
+                continue
+            before = [ctor] + calls[:-1]
+            sched = [b % len(xs) for b in before] + [0] * (nv - len(before))
+            first = xs[(ctor - 1) % len(xs)] if ctor else xs[0]
+            inst["setref"] = Job(build(inst["pair"][0], inst["args"], inst["pair"][1], first, inst["item"]), nv, inst["seed"],
+                                 set_={"attr": inst["attr"], "values": [to_json(attr_value(inst, v)) for v in xs], "schedule": sched})
+            s1, s2, ys = inst["retarget_plan"]
+            sched_r = [0 if i < s1 else 1 if i < s2 else 2 for i in range(nv)]
+            inst["retarget_ref"] = Job(build(inst["pair"][0], inst["args"], inst["pair"][1], ys[0], inst["item"]), nv, inst["seed"],
+                                       set_={"attr": inst["attr"], "values": [to_json(attr_value(inst, v)) for v in ys], "schedule": sched_r})
+            round2 += [inst["setref"], inst["retarget_ref"]]
+        run_jobs(run, round2)
+
+        # ---------------------------------------------------------------------------------------------
+        # judge
+        # ---------------------------------------------------------------------------------------------
+        for inst in insts:
+            cls, param = inst["pair"]
+            pname = "%s.%s" % (cls, param)
+            base = inst["scalar"]
+            run.dist("pair." + pname)
+            sched_kind = schedule_of(inst["pair"])
+            run.dist("schedule." + sched_kind)
+            # (1) scalar / PConstant / PRef(PConstant) / deeper nestings are indistinguishable
+            for fname, j in inst["forms"]:
+                run.count()
+                run.dist("form." + fname)
+                run.cov["oracle_evaluations"] += len(j.obs)
+                k = first_diff(base.obs, j.obs)
+                if len(base.obs) > 1 and not base.res["status"]:
+                    run.nontrivial("const %s %s" % (fname, to_source(j.expr)))
                 if k is not None:
-                    report({"kind": "python-reference", "class": cls, "param": param}, {
-                        "case": {"class": cls, "param": param, "expr": to_source(v.expr), "n": inst["nv"],
-                                 "parameter_stream": [to_source(x) for x in inst["xs"]]},
-                        "expected": "%s (plain-Python reference of %s: the i-th use of %s sees the i-th value)" % (pretty_list(want), cls, param),
-                        "observed": "%s (first difference at step %d)" % (pretty_list(got), k + 1), "python": v.python()})
-                want1, _ = run_ref(cls, inst["args"], param, [inst["x"]], inst["n"])
-                k = first_diff(want1, base.res["obs"][1:])
-                if k is not None and not base.res["status"]:
-                    report({"kind": "python-reference", "class": cls, "param": param, "form": "scalar"}, {
-                        "case": {"class": cls, "param": param, "expr": to_source(base.expr), "n": inst["n"]},
-                        "expected": pretty_list(want1), "observed": pretty_list(base.res["obs"][1:]), "python": base.python()})
-            except (TypeError, ValueError, ZeroDivisionError, IndexError, OverflowError):
-                run.discard("python-reference: outside its domain")
-        # (4) the varying parameter under 1..2 more layers of pattern-returning patterns
-        nj = inst["nested"]
-        run.count()
-        run.dist("form.varying-depth-%d" % inst["nested_depth"])
-        k = first_diff(v.obs, nj.obs)
-        kc = None if [c[:1] for c in v.res["calls"]] == [c[:1] for c in nj.res["calls"]] else "calls"
-        if k is not None or kc:
-            report({"kind": "nested-resolution", "class": cls, "param": param}, {
-                "case": {"class": cls, "param": param, "expr": to_source(nj.expr), "depth": inst["nested_depth"], "seed": inst["seed"]},
-                "expected": "as with the parameter pattern given directly: %s, next() calls %s" % (pretty_list(v.obs), [c[0] for c in v.res["calls"]]),
-                "observed": "%s, next() calls %s" % (pretty_list(nj.obs), [c[0] for c in nj.res["calls"]]), "python": nj.python()})
-        # (5) PRef.set_pattern takes effect from the very next use
-        rj, rr = inst["retarget"], inst.get("retarget_ref")
-        if rr is not None:
+                    report({"kind": "const-equivalence", "class": cls, "param": param}, {
+                        "case": {"class": cls, "param": param, "form": fname, "expr": to_source(j.expr), "scalar_expr": to_source(base.expr),
+                                 "seed": inst["seed"], "n": inst["n"]},
+                        "expected": "the outputs of %s: %s" % (to_source(base.expr), pretty_list(base.obs)),
+                        "observed": "%s (first difference at observation %d; observation 0 is the constructor)" % (pretty_list(j.obs), k),
+                        "python": j.python() + "\n# versus\n" + base.python()})
+            # (2) varying parameter: schedule + step-wise scalar reference
+            v = inst["varying"]
             run.count()
-            run.dist("form.retarget")
-            k = first_diff(rr.obs, rj.obs)
-            if first_diff(inst["x1"].obs, rj.obs) is not None:
-                run.nontrivial("retarget " + to_source(rj.expr) + repr(inst["retarget_plan"][:2]))
-            if k is not None:
-                report({"kind": "retarget", "class": cls, "param": param}, {
-                    "case": {"class": cls, "param": param, "expr": to_source(rj.expr), "seed": inst["seed"],
-                             "retarget": [(s, to_source(from_json(e))) for s, e in rj.retarget]},
-                    "expected": "after set_pattern the very next use sees the new pattern: %s" % pretty_list(rr.obs),
-                    "observed": "%s (first difference at observation %d)" % (pretty_list(rj.obs), k),
-                    "python": rj.python()})
+            run.dist("form.varying")
+            if v.res["status"] or len(v.res["obs"]) < 2:
+                # the scalar form must then fail in the same way at construction
+                if canon(v.obs[:1] + v.obs[-1:]) != canon(inst["x1"].obs[:1] + inst["x1"].obs[-1:]) and (v.res["status"] or len(v.res["obs"]) < 2) \
+                        and not (inst["x1"].res["status"] == v.res["status"] and len(inst["x1"].res["obs"]) == len(v.res["obs"])):
+                    report({"kind": "varying-construction", "class": cls, "param": param}, {
+                        "case": {"class": cls, "param": param, "expr": to_source(v.expr), "seed": inst["seed"]},
+                        "expected": "constructed and stepped like %s: %s" % (to_source(inst["x1"].expr), pretty_list(inst["x1"].obs)),
+                        "observed": pretty_list(v.obs), "python": v.python()})
+                else:
+                    run.discard("varying: not constructible either way")
+                continue
+            run.cov["oracle_evaluations"] += len(v.obs)
+            why = judge_schedule(inst["pair"], v, inst["xs"])
+            if why:
+                report({"kind": "use-schedule", "class": cls, "param": param}, {
+                    "case": {"class": cls, "param": param, "expr": to_source(v.expr), "seed": inst["seed"], "n": inst["nv"], "schedule": sched_kind},
+                    "expected": "a varying parameter is read exactly once per use (%s): never skipped, never read twice" % sched_kind,
+                    "observed": "%s; cumulative next() calls on the parameter after each step: %s (constructor: %s); outputs %s" % (
+                        why, [c[0] for c in v.res["calls"]], v.res["ctor_calls"], pretty_list(v.obs)),
+                    "python": v.python()})
+            sr = inst["setref"]
+            if sr is not None and sched_kind == "loop":
+                cs = [inst["varying"].res["ctor_calls"][0]] + [c[0] for c in v.res["calls"]]
+                if any(y - x != 1 for x, y in zip(cs, cs[1:])):
+                    run.discard("loop class: a step read more than one value")
+                    sr = None
+            if sr is not None:
+                k = first_diff(sr.obs, v.obs)
+                if k is not None:
+                    report({"kind": "stepwise-reference", "class": cls, "param": param}, {
+                        "case": {"class": cls, "param": param, "expr": to_source(v.expr), "seed": inst["seed"], "n": inst["nv"],
+                                 "parameter_stream": [to_source(x) for x in inst["xs"]]},
+                        "expected": "the outputs of the same class with the parameter re-assigned by hand to the value its i-th use must see: %s" % pretty_list(sr.obs),
+                        "observed": "%s (first difference at observation %d)" % (pretty_list(v.obs), k),
+                        "python": v.python() + "\n# reference\n" + sr.python()})
+                if first_diff(inst["x1"].obs, v.obs) is not None:
+                    discriminating[inst["pair"]] += 1
+                    run.nontrivial("varying " + to_source(v.expr))
+            # (3) explicit plain-Python reference
+            if cls in REFS and param != "args":
+                try:
+                    want, uses = run_ref(cls, inst["args"], param, inst["xs"], inst["nv"])
+                    got = v.res["obs"][1:]
+                    k = first_diff(want, got)
+                    run.cov["oracle_evaluations"] += len(got)
+                    run.dist("oracle.plain-python-reference")
+                    if k is not None:
+                        report({"kind": "python-reference", "class": cls, "param": param}, {
+                            "case": {"class": cls, "param": param, "expr": to_source(v.expr), "n": inst["nv"],
+                                     "parameter_stream": [to_source(x) for x in inst["xs"]]},
+                            "expected": "%s (plain-Python reference of %s: the i-th use of %s sees the i-th value)" % (pretty_list(want), cls, param),
+                            "observed": "%s (first difference at step %d)" % (pretty_list(got), k + 1), "python": v.python()})
+                    want1, _ = run_ref(cls, inst["args"], param, [inst["x"]], inst["n"])
+                    k = first_diff(want1, base.res["obs"][1:])
+                    if k is not None and not base.res["status"]:
+                        report({"kind": "python-reference", "class": cls, "param": param, "form": "scalar"}, {
+                            "case": {"class": cls, "param": param, "expr": to_source(base.expr), "n": inst["n"]},
+                            "expected": pretty_list(want1), "observed": pretty_list(base.res["obs"][1:]), "python": base.python()})
+                except (TypeError, ValueError, ZeroDivisionError, IndexError, OverflowError):
+                    run.discard("python-reference: outside its domain")
+            # (4) the varying parameter under 1..2 more layers of pattern-returning patterns
+            nj = inst["nested"]
+            run.count()
+            run.dist("form.varying-depth-%d" % inst["nested_depth"])
+            k = first_diff(v.obs, nj.obs)
+            kc = None if [c[:1] for c in v.res["calls"]] == [c[:1] for c in nj.res["calls"]] else "calls"
+            if k is not None or kc:
+                report({"kind": "nested-resolution", "class": cls, "param": param}, {
+                    "case": {"class": cls, "param": param, "expr": to_source(nj.expr), "depth": inst["nested_depth"], "seed": inst["seed"]},
+                    "expected": "as with the parameter pattern given directly: %s, next() calls %s" % (pretty_list(v.obs), [c[0] for c in v.res["calls"]]),
+                    "observed": "%s, next() calls %s" % (pretty_list(nj.obs), [c[0] for c in nj.res["calls"]]), "python": nj.python()})
+            # (5) PRef.set_pattern takes effect from the very next use
+            rj, rr = inst["retarget"], inst.get("retarget_ref")
+            if rr is not None:
+                run.count()
+                run.dist("form.retarget")
+                k = first_diff(rr.obs, rj.obs)
+                if first_diff(inst["x1"].obs, rj.obs) is not None:
+                    run.nontrivial("retarget " + to_source(rj.expr) + repr(inst["retarget_plan"][:2]))
+                if k is not None:
+                    report({"kind": "retarget", "class": cls, "param": param}, {
+                        "case": {"class": cls, "param": param, "expr": to_source(rj.expr), "seed": inst["seed"],
+                                 "retarget": [(s, to_source(from_json(e))) for s, e in rj.retarget]},
+                        "expected": "after set_pattern the very next use sees the new pattern: %s" % pretty_list(rr.obs),
+                        "observed": "%s (first difference at observation %d)" % (pretty_list(rj.obs), k),
+                        "python": rj.python()})
+        return insts
+
+    insts = process(sorted(judged), per_pair)
+    for attempt in range(3):          # pairs whose varying cases all happened to coincide with the constant run: more instances
+        again = [p for p, n in discriminating.items() if n == 0 and p not in NO_DISCRIMINATION]
+        if not again or run.violations:
+            break
+        run.dist('regenerated-pairs', len(again))
+        process(again, per_pair * 3)
     weak = sorted("%s.%s" % p for p, n in discriminating.items() if n == 0 and p not in NO_DISCRIMINATION)
     run.cov["pairs_without_discriminating_varying_case"] = weak
 
